@@ -9,6 +9,16 @@
  *   F<name>=<hex>   file <name> with the given content (created before the first operation)
  *   C<n>            a chain of n files c0 .. c<n-1>: c<k> holds "begin foo", "t<k>", "%include c<k+1>" (not the last), "u<k>", "end"
  *   T               TMPDIR names a directory that does not exist (for the whole case)
+ *   P<n>            TMPDIR is the work directory spelled with n characters (padded with "/." and "/"): the name that
+ *                   spiftool_temp_file builds in its 256-byte buffer gets longer than the buffer from n = 235 (%preproc) / 238 (%exec)
+ *   E<hexname>=<v>  environment variable for the whole case (the environment is otherwise empty but for TMPDIR);
+ *                   <v> is a value spec: parts joined by '+', a part is hex | - | *<n> (n times 'L') | *<n>/<hexpattern> (the
+ *                   pattern repeated up to n bytes)
+ *   D<name>=<g>,..  directory <name> (created before the first operation); each <g> is <count>x<len> (count regular files
+ *                   whose names are len characters long), s (a subdirectory with a file in it), l (a dangling symbolic link),
+ *                   k (a symbolic link to a regular file), p (a FIFO)
+ *   O<v>            what an intercepted system() writes to the file behind the last " >" of a builtin_exec command
+ *                   (value spec); without it the command has no output
  *   i               spifconf_init_subsystem          -> i
  *   f               spifconf_free_subsystem          -> f:vars=<0|1>,tabs=<0|1>
  *   r<hexname>      spifconf_register_context        -> r=<id>
@@ -18,6 +28,12 @@
  *   q               spifconf_parse("a", NULL, NULL), only faults, termination and spawning observed -> q:ok, or q:SPAWNED when a process was
  *                   created although no file of the case contains a backquote, %exec or %preproc
  *   o<name>         spifconf_open_file(name) under seven stack paints -> o=<0|1|UNSTABLE>
+ *   x<v>            spifconf_shell_expand on the text <v> (value spec) in a heap block of CONFIG_BUFF bytes -> x:ok when the result is
+ *                   NULL, or is the block itself holding a terminated string shorter than CONFIG_BUFF (and no process was created for a
+ *                   text without backquote or %exec); x:BAD-<why> otherwise.  What the sanitizers see is the main observation.
+ *   s<name>         the result of expanding "%dirscan(<name>)" against the harness's own reading of the directory -> s:ok when every
+ *                   word is the name of a regular file of the directory, no name occurs twice, the names come in readdir order and
+ *                   nothing is missing when all names (each with its blank) fit the line buffer; s:BAD-<why> otherwise
  *   d               counters                         -> d=ci/cc,si/sc,fi/fc,bi/bc,v<n>
  *   l               ledger: live heap blocks relative to the start of the case -> l=<n>
  * case:  find <flen> <dlen|-1> <n1,n2,...|->   spifconf_find_file on strings of these lengths
@@ -38,7 +54,20 @@ extern int __sanitizer_install_malloc_and_free_hooks(void (*mh)(const volatile v
 
 /* ---- process creation: counted, never performed ---- */
 static long lv_spawns;
-int __wrap_system(const char *cmd) { lv_spawns++; return 0; }
+static unsigned char *lv_spawn_out;      /* token O: what a command run by builtin_exec "prints" */
+static size_t lv_spawn_out_len;
+int __wrap_system(const char *cmd)
+{
+    const char *gt = NULL, *q;
+    lv_spawns++;
+    if (!cmd || !lv_spawn_out) return 0;
+    for (q = cmd; (q = strstr(q, " >")); q += 2) gt = q;
+    if (gt && strstr(gt, "Eterm-exec-")) {      /* builtin_exec: "<command> ><temporary file>" */
+        FILE *f = fopen(gt + 2, "wb");
+        if (f) { if (lv_spawn_out_len) fwrite(lv_spawn_out, 1, lv_spawn_out_len, f); fclose(f); }
+    }
+    return 0;
+}
 FILE *__wrap_popen(const char *cmd, const char *m) { lv_spawns++; errno = ENOSYS; return NULL; }
 pid_t __wrap_fork(void) { lv_spawns++; errno = ENOSYS; return -1; }
 pid_t __wrap_vfork(void) { lv_spawns++; errno = ENOSYS; return -1; }
@@ -84,8 +113,10 @@ static void *rec(int hid, char *b, void *st)
 {
     uintptr_t out = ++lv_token;
     if (lv_tlen) tr(",");
-    if (b[0] == SPIFCONF_BEGIN_CHAR) tr("%db%lu>%lu", hid, (unsigned long) (uintptr_t) st, (unsigned long) out);
-    else if (b[0] == SPIFCONF_END_CHAR) tr("%de%lu>%lu", hid, (unsigned long) (uintptr_t) st, (unsigned long) out);
+    /* the begin and end calls pass the one-character strings "\001" and "\002"; a text line that merely starts with one of
+     * these bytes is text (a line that consists of exactly that byte cannot be told from the call: the driver prints it alike) */
+    if (b[0] == SPIFCONF_BEGIN_CHAR && !b[1]) tr("%db%lu>%lu", hid, (unsigned long) (uintptr_t) st, (unsigned long) out);
+    else if (b[0] == SPIFCONF_END_CHAR && !b[1]) tr("%de%lu>%lu", hid, (unsigned long) (uintptr_t) st, (unsigned long) out);
     else { tr("%dt", hid); tr_hex((unsigned char *) b, strlen(b)); tr(":%lu>%lu", (unsigned long) (uintptr_t) st, (unsigned long) out); }
     return (void *) out;
 }
@@ -103,17 +134,56 @@ static spif_charptr_t lv_dummy_builtin(spif_charptr_t p) { return NULL; }
 /* ---- may the text of this case spawn a process?  (a backquote, or '%' - optionally followed by
  * blanks or quote characters - and the word exec or preproc, case-insensitively) ---- */
 static int lv_may_spawn;
-static void scan_spawn(const unsigned char *d, size_t n)
+static int text_may_spawn(const unsigned char *d, size_t n)
 {
     size_t i, j;
     for (i = 0; i < n; i++) {
-        if (d[i] == '`') { lv_may_spawn = 1; return; }
+        if (d[i] == '`') return 1;
         if (d[i] == '%') {
             j = i + 1;
             while (j < n && (d[j] == ' ' || (d[j] >= 9 && d[j] <= 13) || d[j] == '"' || d[j] == '\'')) j++;
-            if (j + 4 <= n && !strncasecmp((const char *) d + j, "exec", 4)) { lv_may_spawn = 1; return; }
-            if (j + 7 <= n && !strncasecmp((const char *) d + j, "preproc", 7)) { lv_may_spawn = 1; return; }
+            if (j + 4 <= n && !strncasecmp((const char *) d + j, "exec", 4)) return 1;
+            if (j + 7 <= n && !strncasecmp((const char *) d + j, "preproc", 7)) return 1;
         }
+    }
+    return 0;
+}
+static void scan_spawn(const unsigned char *d, size_t n) { if (text_may_spawn(d, n)) lv_may_spawn = 1; }
+
+/* value spec: parts joined by '+'; a part is hex | - | *<n> (n times 'L') | *<n>/<hexpattern> (the pattern repeated up to n bytes).
+ * The result is an exact block of *len + 1 bytes, NUL after the value */
+static unsigned char *lv_valspec(const char *v, size_t *len)
+{
+    unsigned char *r = (unsigned char *) malloc(1);
+    size_t total = 0;
+    char *c = strdup(v), *part, *save = NULL;
+    for (part = strtok_r(c, "+", &save); part; part = strtok_r(NULL, "+", &save)) {
+        if (part[0] == '*') {
+            size_t n = (size_t) strtoul(part + 1, NULL, 10), pl = 1, i;
+            const char *sl = strchr(part, '/');
+            unsigned char *pat = NULL;
+            if (sl) pat = lv_unhex(sl + 1, &pl);
+            r = (unsigned char *) realloc(r, total + n + 1);
+            for (i = 0; i < n; i++) r[total + i] = (pat && pl) ? pat[i % pl] : 'L';
+            total += n;
+            free(pat);
+        } else {
+            size_t n;
+            unsigned char *b = lv_unhex(part, &n);
+            r = (unsigned char *) realloc(r, total + n + 1);
+            if (n) memcpy(r + total, b, n);
+            total += n;
+            free(b);
+        }
+    }
+    free(c);
+    {   /* exact block */
+        unsigned char *e = (unsigned char *) malloc(total + 1);
+        if (total) memcpy(e, r, total);
+        e[total] = 0;
+        free(r);
+        *len = total;
+        return e;
     }
 }
 
@@ -151,13 +221,125 @@ static void clean_dir(const char *dir)
     DIR *d = opendir(dir);
     struct dirent *e;
     char p[8192];
+    struct stat st;
     if (!d) return;
     while ((e = readdir(d))) {
         if (!strcmp(e->d_name, ".") || !strcmp(e->d_name, "..")) continue;
         snprintf(p, sizeof(p), "%s/%s", dir, e->d_name);
-        unlink(p);
+        if (!lstat(p, &st) && S_ISDIR(st.st_mode)) { clean_dir(p); rmdir(p); }
+        else unlink(p);
     }
     closedir(d);
+}
+
+/* token D: a directory with regular files whose names have given lengths, and things that are not regular files */
+static int make_dir(const char *name, const char *spec)
+{
+    char *c = strdup(spec), *g, path[8192];
+    int grp = 0;
+    if (mkdir(name, 0700)) { free(c); return -1; }
+    for (g = strtok(c, ","); g; g = strtok(NULL, ","), grp++) {
+        char *x = strchr(g, 'x');
+        if (x) {
+            long cnt = atol(g), len = atol(x + 1), i;
+            char nm[300], dg[32];
+            if (len < 1 || len > 255) { free(c); return -1; }
+            for (i = 0; i < cnt; i++) {
+                /* the index in base 36, right-aligned in a name of upper-case letters */
+                int nd = 0, fd;
+                long q = i;
+                char rev[32];
+                do { rev[nd++] = "0123456789abcdefghijklmnopqrstuvwxyz"[q % 36]; q /= 36; } while (q);
+                { int z; for (z = 0; z < nd; z++) dg[z] = rev[nd - 1 - z]; dg[nd] = 0; }
+                if (nd > len) { free(c); return -1; }
+                memset(nm, 'A' + grp % 26, (size_t) len);
+                memcpy(nm + len - nd, dg, (size_t) nd);
+                nm[len] = 0;
+                snprintf(path, sizeof(path), "%s/%s", name, nm);
+                fd = open(path, O_WRONLY | O_CREAT | O_EXCL, 0600);
+                if (fd < 0) { free(c); return -1; }
+                close(fd);
+            }
+        } else if (!strcmp(g, "s")) {
+            int fd;
+            snprintf(path, sizeof(path), "%s/subdir", name);
+            if (mkdir(path, 0700)) { free(c); return -1; }
+            snprintf(path, sizeof(path), "%s/subdir/inner", name);
+            fd = open(path, O_WRONLY | O_CREAT, 0600);
+            if (fd >= 0) close(fd);
+        } else if (!strcmp(g, "l")) {
+            snprintf(path, sizeof(path), "%s/dangling", name);
+            if (symlink("nowhere-lv", path)) { free(c); return -1; }
+        } else if (!strcmp(g, "k")) {
+            int fd;
+            snprintf(path, sizeof(path), "%s/target", name);
+            fd = open(path, O_WRONLY | O_CREAT, 0600);
+            if (fd >= 0) close(fd);
+            snprintf(path, sizeof(path), "%s/link", name);
+            if (symlink("target", path)) { free(c); return -1; }
+        } else if (!strcmp(g, "p")) {
+            snprintf(path, sizeof(path), "%s/fifo", name);
+            if (mkfifo(path, 0600)) { free(c); return -1; }
+        } else { free(c); return -1; }
+    }
+    free(c);
+    return 0;
+}
+
+/* op s: "%dirscan(<name>)" against the harness's own reading of the directory */
+static const char *check_dirscan(const char *name)
+{
+    static char why[64];
+    char **names = NULL, *blk, *r, *w, path[8192];
+    size_t nn = 0, cap = 0, total = 0, k, next = 0;
+    DIR *d = opendir(name);
+    struct dirent *e;
+    struct stat st;
+    const char *res = "ok";
+    if (!d) return "HARNESS-ERROR:opendir";
+    while ((e = readdir(d))) {
+        snprintf(path, sizeof(path), "%s/%s", name, e->d_name);
+        if (stat(path, &st) || !S_ISREG(st.st_mode)) continue;
+        if (nn == cap) { cap = cap ? 2 * cap : 64; names = (char **) realloc(names, cap * sizeof(char *)); }
+        names[nn++] = strdup(e->d_name);
+        total += strlen(e->d_name) + 1;
+    }
+    closedir(d);
+    blk = (char *) malloc(CONFIG_BUFF);
+    memset(blk, 0x5a, CONFIG_BUFF);
+    snprintf(blk, CONFIG_BUFF, "%%dirscan(%s)", name);
+    r = (char *) spifconf_shell_expand((spif_charptr_t) blk);
+    if (!r) res = "BAD-null";
+    else if (r != blk) res = "BAD-not-in-place";
+    else if (!memchr(blk, 0, CONFIG_BUFF)) res = "BAD-unterminated";
+    else {
+        size_t rl = strlen(blk), found = 0;
+        for (w = blk; *w; ) {
+            char *sp = strchr(w, ' ');
+            size_t wl = sp ? (size_t) (sp - w) : strlen(w);
+            if (!sp && wl == 0) break;
+            if (!sp) {
+                /* the last word without its blank: only where the text was cut at the line limit */
+                if (rl + 2 < CONFIG_BUFF) { res = "BAD-last-word-without-blank"; break; }
+                for (k = next; k < nn; k++) if (!strncmp(names[k], w, wl)) break;
+                if (k == nn) res = "BAD-cut-word-not-a-prefix-of-a-name";
+                break;
+            }
+            for (k = next; k < nn; k++) if (strlen(names[k]) == wl && !memcmp(names[k], w, wl)) break;
+            if (k == nn) { res = "BAD-word-not-a-file-of-the-directory-in-order"; break; }
+            next = k + 1;
+            found++;
+            w = sp + 1;
+        }
+        if (!strcmp(res, "ok") && total + 1 < CONFIG_BUFF - 1 && found != nn) {
+            snprintf(why, sizeof(why), "BAD-%lu-of-%lu-names", (unsigned long) found, (unsigned long) nn);
+            res = why;
+        }
+    }
+    free(blk);
+    for (k = 0; k < nn; k++) free(names[k]);
+    free(names);
+    return res;
 }
 static void __attribute__((noinline)) paint_stack(const char *pat, size_t plen, size_t shift)
 {
@@ -180,18 +362,34 @@ static long vars_len(void)
     return n;
 }
 
+static void remove_work_dir(void)
+{
+    if (!lv_dir[0]) return;
+    clean_dir(lv_dir);
+    if (!chdir("..")) rmdir(lv_dir);
+}
+
 static void setup_dir(const char *casefile)
 {
     static int done;
     char *sl;
     if (done) return;
     done = 1;
+    /* the work directory: next to the case file and named after it (cases-main-<pid>.txt -> fs-cases-main-<pid>), so that
+     * two runs of one property (quick and thorough, two trees) do not share it; removed again when the run ends normally */
     if (!realpath(casefile, lv_dir)) snprintf(lv_dir, sizeof(lv_dir) - 16, "%s", casefile);
     sl = strrchr(lv_dir, '/');
-    if (sl) *sl = 0; else strcpy(lv_dir, ".");
-    strcat(lv_dir, "/fs");
+    {
+        char base[256];
+        char *dot;
+        snprintf(base, sizeof(base), "%s", sl ? sl + 1 : lv_dir);
+        if ((dot = strrchr(base, '.'))) *dot = 0;
+        if (sl) *sl = 0; else strcpy(lv_dir, ".");
+        snprintf(lv_dir + strlen(lv_dir), sizeof(lv_dir) - strlen(lv_dir), "/fs-%s", base);
+    }
     mkdir(lv_dir, 0700);
     if (chdir(lv_dir)) { printf("HARNESS-ERROR:chdir"); exit(3); }
+    atexit(remove_work_dir);
     setenv("TMPDIR", lv_dir, 1);
     libast_program_name = "lv";
     libast_program_version = "1.0";
@@ -211,7 +409,30 @@ static void do_hist(int n, char **t)
     close_above(fd_keep);
     clean_dir(lv_dir);
     lv_may_spawn = 0;
+    clearenv();
+    free(lv_spawn_out);
+    lv_spawn_out = NULL;
+    lv_spawn_out_len = 0;
     for (k = 1; k < n; k++) {
+        if (t[k][0] == 'E') {
+            char *eq = strchr(t[k], '='), *nm;
+            unsigned char *v;
+            size_t vl;
+            if (!eq) { printf("HARNESS-ERROR:env"); return; }
+            *eq = 0;
+            nm = lv_unhex_str(t[k] + 1);
+            v = lv_valspec(eq + 1, &vl);
+            if (setenv(nm, (char *) v, 1)) { printf("HARNESS-ERROR:setenv"); return; }
+            free(nm);
+            free(v);
+        }
+        if (t[k][0] == 'D') {
+            char *eq = strchr(t[k], '=');
+            if (!eq) { printf("HARNESS-ERROR:dir"); return; }
+            *eq = 0;
+            if (make_dir(t[k] + 1, eq + 1)) { printf("HARNESS-ERROR:mkdir"); return; }
+        }
+        if (t[k][0] == 'O') lv_spawn_out = lv_valspec(t[k] + 1, &lv_spawn_out_len);
         if (t[k][0] == 'C') {
             int cn = atoi(t[k] + 1), j;
             for (j = 0; j < cn; j++) {
@@ -242,10 +463,27 @@ static void do_hist(int n, char **t)
             free(data);
         }
     }
-    {   /* "T": the temporary directory does not exist for this case */
+    {   /* "T": the temporary directory does not exist for this case; "P<n>": its name is n characters long */
         int broken = 0;
-        for (k = 1; k < n; k++) if (!strcmp(t[k], "T")) broken = 1;
-        setenv("TMPDIR", broken ? "/nonexistent-lv-tmp" : lv_dir, 1);
+        long padto = 0;
+        for (k = 1; k < n; k++) {
+            if (!strcmp(t[k], "T")) broken = 1;
+            if (t[k][0] == 'P') padto = atol(t[k] + 1);
+        }
+        if (padto) {
+            size_t dl = strlen(lv_dir);
+            char *pad;
+            if ((size_t) padto < dl || padto > 100000) { printf("HARNESS-ERROR:pad"); return; }
+            pad = (char *) malloc((size_t) padto + 1);
+            memcpy(pad, lv_dir, dl);
+            while (dl + 2 <= (size_t) padto) { pad[dl++] = '/'; pad[dl++] = '.'; }
+            if (dl < (size_t) padto) pad[dl++] = '/';
+            pad[dl] = 0;
+            setenv("TMPDIR", pad, 1);
+            free(pad);
+        } else {
+            setenv("TMPDIR", broken ? "/nonexistent-lv-tmp" : lv_dir, 1);
+        }
     }
     lv_nexth = 0;
     lv_token = 0;
@@ -257,7 +495,34 @@ static void do_hist(int n, char **t)
         case 'F':
         case 'T':
         case 'C':
+        case 'E':
+        case 'D':
+        case 'O':
+        case 'P':
             continue;
+        case 'x': {
+            size_t len;
+            unsigned char *text = lv_valspec(a, &len);
+            long sp0 = lv_spawns;
+            char *blk, *r;
+            int allowed;
+            if (len >= CONFIG_BUFF) { printf("HARNESS-ERROR:text-too-long "); free(text); break; }
+            allowed = text_may_spawn(text, len);
+            blk = (char *) malloc(CONFIG_BUFF);
+            memset(blk, 0x5a, CONFIG_BUFF);
+            memcpy(blk, text, len + 1);
+            free(text);
+            r = (char *) spifconf_shell_expand((spif_charptr_t) blk);
+            if (r && r != blk) printf("x:BAD-not-in-place ");
+            else if (r && !memchr(blk, 0, CONFIG_BUFF)) printf("x:BAD-unterminated ");
+            else if (lv_spawns != sp0 && !allowed) printf("x:BAD-spawned ");
+            else printf("x:ok ");
+            free(blk);
+            break;
+        }
+        case 's':
+            printf("s:%s ", check_dirscan(a));
+            break;
         case 'i':
             spifconf_init_subsystem();
             printf("i ");
